@@ -48,7 +48,9 @@ func NewRetryTransaction(ctx context.Context, retryDelay time.Duration, retryCou
 	go func() {
 		select {
 		case <-ctx.Done():
+			t.retryNumMutex.Lock()
 			t.stopTimer()
+			t.retryNumMutex.Unlock()
 		case <-t.Done():
 			return
 		}
@@ -58,12 +60,23 @@ func NewRetryTransaction(ctx context.Context, retryDelay time.Duration, retryCou
 
 // Transaction.Success() implementation.
 func (t *RetryTransaction) Success() {
+	t.retryNumMutex.Lock()
+	defer t.retryNumMutex.Unlock()
+
 	t.stopTimer()
 	t.TransactionBase.Success()
 }
 
 // Transaction.Fail() implementation.
 func (t *RetryTransaction) Fail(e error) {
+	t.retryNumMutex.Lock()
+	defer t.retryNumMutex.Unlock()
+
+	t.fail(e)
+}
+
+// You must acquire t.retryNumMutex before calling this function!
+func (t *RetryTransaction) fail(e error) {
 	t.stopTimer()
 	t.TransactionBase.Fail(e)
 }
@@ -79,12 +92,14 @@ func (t *RetryTransaction) Proceed(state interface{}, data interface{}) {
 	t.restartTimer()
 }
 
+// You must acquire t.retryNumMutex before calling this function!
 func (t *RetryTransaction) stopTimer() {
 	if t.timer != nil {
 		t.timer.Stop()
 	}
 }
 
+// You must acquire t.retryNumMutex before calling this function!
 func (t *RetryTransaction) restartTimer() {
 	t.stopTimer()
 	t.timer = time.AfterFunc(t.retryDelay, t.timeout)
@@ -94,13 +109,21 @@ func (t *RetryTransaction) timeout() {
 	t.retryNumMutex.Lock()
 	defer t.retryNumMutex.Unlock()
 
+	// The timer could have fired just before the transaction finished.
+	select {
+	case <-t.Done():
+		return
+	default:
+	}
+
 	t.retryNum++
 	if t.retryNum > t.retryCount {
-		t.Fail(ErrNoMoreRetries)
+		t.fail(ErrNoMoreRetries)
 		return
 	}
 	if err := t.retryCallback(t.Data); err != nil {
-		t.Fail(err)
+		t.fail(err)
+		return
 	}
 	t.restartTimer()
 }
